@@ -1,4 +1,5 @@
 import Model.Lunar
+import Model.AstroWFExtra
 import Gen.AstroAll
 import Driver.Util
 import Driver.OpsCivil
@@ -57,6 +58,9 @@ def opsLunar : List (String × Handler) := [
       some (match Lunar.fromSolar astro ⟨y, m, d, h, mi, s⟩ with
         | none => "!"
         | some l => showOptLunar (l.next astro n))
+    | _ => none),
+  ("wf", intOp fun
+    | [y] => some (String.ofList ((yearDiag y (astro y) (astro (y + 1))).map fun b => if b then '1' else '0'))
     | _ => none),
   ("lm.next", intOp fun
     | [y, m, n] => some (match monthNext astro y m n with
